@@ -65,11 +65,11 @@ theorem fw_eq (W : Str) : fw W = BasicRef.flushWord W := by
 
 theorem isSpecial_eq (c : Nat) : isSpecial c = BasicRef.isPunct c := by
   unfold isSpecial BasicRef.isPunct
-  have : Gen.Tokens.specialChars = [46, 44, 40, 41, 58, 32] := by decide
+  have : Gen.Tokens.specialChars = [46, 44, 40, 41, 58, 59, 32] := by decide
   rw [this]
   simp only [List.contains_eq_mem, List.mem_cons, List.mem_nil_iff, or_false]
-  by_cases h1 : c = 46 <;> by_cases h2 : c = 44 <;> by_cases h3 : c = 40 <;> by_cases h4 : c = 41 <;> by_cases h5 : c = 58 <;> by_cases h6 : c = 32 <;>
-    simp [h1, h2, h3, h4, h5, h6]
+  by_cases h1 : c = 46 <;> by_cases h2 : c = 44 <;> by_cases h3 : c = 40 <;> by_cases h4 : c = 41 <;> by_cases h5 : c = 58 <;> by_cases h7 : c = 59 <;> by_cases h6 : c = 32 <;>
+    simp [h1, h2, h3, h4, h5, h6, h7]
 
 theorem isOperator_eq (c : Nat) : BasicRef.isOperator c = isToken [c] := by
   unfold BasicRef.isOperator
